@@ -212,3 +212,26 @@ PROPS = {
         "assumptions": COMMON_ASSUME + ["the unit of the 16 KiB inspected prefix (original vs transcoded bytes) is not fixed by the statement; the narrow zone between is accepted either way"],
     },
 }
+
+# Additions of rounds 10 to 14 of the seeded-change campaign (see DESIGN.md section 11).
+RULE_ADDENDA = {
+    "C01": "Also: $match-case rules whose indexed window holds a capital, $important rules, zero-hash $domain values and sources, fragment patterns, letters that change length in lower case, deep source hosts, CRLF lists.",
+    "C02": "Also: hosts lines written at text level (several names per line, repeated names, zoned and 45-byte addresses, 280..420 aliases), regex alternations of anchored literals, client names differing in letter case only.",
+    "C03": "Also: the rule is written in option variants ($match-case,document / $document,match-case / $important) that must not change the mask semantics; addresses embedding ws://<mask> further on.",
+    "C05": "Also: slash-delimited masks without regex specials, domains followed by a separator that does not end the host, bystander rules in the engine stage.",
+    "C06": "Also: $stealth first in the slice, rewrite / other / rewrite orders, referrer rules in capitals, NS/SOA/CAA rewrites, the same slices evaluated twice.",
+    "C08": "Also: a FOREIGN rule whose text has the FastHash of the $badfilter rule (built by meet-in-the-middle at start up), twins filed under the last window of URLs that grow in lower case, a pair around the storage block size.",
+    "C10": "Also: the accepted record type must be the one written and a real one (DNS library table); type names of 17 bytes and more; extended response codes with a record.",
+    "C11": "Also: concurrent retrieval on one storage with the case recorded beforehand, so that a worker killed by the runtime (concurrent map access) is reported with its case; indented, aligned 32-byte, two-byte and >=64 KiB lines.",
+    "C12": "Also: more matching $badfilter rules than other rules, $dnsrewrite values containing ';', engines over empty storage; 20 s watchdog per case (does-not-terminate).",
+    "C13": "Also: results of earlier queries are re-inspected after later ones (no shared scratch state), identical queries repeated (no map-order dependence), reverse renamed-apart history, transient faults.",
+    "C14": "Also: hosts lines that repeat a name (race detector), a 1200-rule list whose retrievals exceed 1024 cache entries under 16 goroutines, opposite-order pairs, named clients.",
+    "C15": "Also: rules on a domain and on its sub-domain with the host at the deeper level; exceptions listed before the generic rule they silence; colliding selectors.",
+    "C16": "Also engine kinds: referrer under $urlblock with an $important block of the page; $stealth(,important) exception beside the cosmetic exception; modifiers with values among the cosmetic ones.",
+    "C17": "Also: one-byte hosts, hosts under a short suffix followed by hosts under a longer rule ending in it (no state kept between calls), several requests constructed together.",
+    "C18": "Also: three lists with an empty middle one, address tokens of 40..45 bytes, zoned addresses, BOM, CRLF, a long comment across the read buffer, first line asked again last.",
+    "C19": "Also fault kinds: handle closed behind the list and Close called (dead-lock watchdog 30 s), Close fault followed by a never-loaded rule, a goroutine held between cache miss and read while the fault goes on.",
+    "C20": "Also: the same body filtered from eight goroutines at once equals the sequential output; bodies without marker holding bytes >= 0x80; gzip members; through the real proxy for a quarter of the cases.",
+}
+for _k, _v in RULE_ADDENDA.items():
+    PROPS[_k]["rule"] = PROPS[_k]["rule"].rstrip() + " " + _v
